@@ -25,7 +25,10 @@ EXTENDS Naturals, Sequences, FiniteSets, TLC
 
 CONSTANTS MaxInstr,    \* number of generated instructions
           MaxMut,      \* number of mutations
-          IncludeHang  \* include the integer expression whose evaluation does not terminate in practical time
+          IncludeHang, \* include the integer expression whose evaluation does not terminate in practical time
+          QuoteFamily  \* TRUE: the EXHAUSTIVE family "one unbalanced quote": every skeleton with one benign filler
+                       \* per slot x every line of [act] x a quote put in front of every token of the instruction
+                       \* and of [act] (no other mutation)
 
 \* ---- slot fillers: type -> class -> values ----------------------------------------------
 Fill(type, class) ==
@@ -71,6 +74,8 @@ Skeletons == {
   [id |-> "line-matches", phase |-> "assert", a |-> <<"contents", "f.txt", ":", "every", "line", ":", "contents", "matches">>, s1 |-> "regex", b |-> <<>>, s2 |-> "-", c |-> <<>>],
   [id |-> "grep", phase |-> "setup", a |-> <<"file", "g.txt", "=", "-contents-of", "-rel-act", "f.txt", "-transformed-by", "grep">>, s1 |-> "regex", b |-> <<>>, s2 |-> "-", c |-> <<>>],
   [id |-> "replace", phase |-> "assert", a |-> <<"stdout", "-transformed-by", "replace">>, s1 |-> "regex", b |-> <<>>, s2 |-> "repl", c |-> <<"num-lines", ">=", "0">>],
+  [id |-> "replace-pnl", phase |-> "assert", a |-> <<"stdout", "-transformed-by", "replace", "-preserve-new-lines">>, s1 |-> "regex", b |-> <<>>, s2 |-> "repl", c |-> <<"num-lines", ">=", "0">>],
+  [id |-> "replace-at", phase |-> "assert", a |-> <<"stdout", "-transformed-by", "replace", "-at", "line-num == 1">>, s1 |-> "regex", b |-> <<>>, s2 |-> "repl", c |-> <<"num-lines", ">=", "0">>],
   [id |-> "replace-file", phase |-> "setup", a |-> <<"file", "r.txt", "=", "-contents-of", "-rel-act", "f.txt", "-transformed-by", "replace">>, s1 |-> "regex", b |-> <<>>, s2 |-> "repl", c |-> <<>>],
   [id |-> "name-regex", phase |-> "assert", a |-> <<"exists", "f.txt", ":", "name", "~">>, s1 |-> "regex", b |-> <<>>, s2 |-> "-", c |-> <<>>],
   [id |-> "matcher-sym", phase |-> "assert", a |-> <<"stdout">>, s1 |-> "matcher", b |-> <<>>, s2 |-> "-", c |-> <<>>],
@@ -79,8 +84,19 @@ Skeletons == {
   [id |-> "unknown-instruction", phase |-> "setup", a |-> <<"no-such-instruction", "a", "b">>, s1 |-> "-", b |-> <<>>, s2 |-> "-", c |-> <<>>],
   [id |-> "unknown-phase", phase |-> "setup", a |-> <<"[no-such-phase]">>, s1 |-> "-", b |-> <<>>, s2 |-> "-", c |-> <<>>],
   [id |-> "unterminated-quote", phase |-> "setup", a |-> <<"def", "string", "Q", "=", "'abc">>, s1 |-> "-", b |-> <<>>, s2 |-> "-", c |-> <<>>],
-  [id |-> "missing-argument", phase |-> "assert", a |-> <<"exit-code", "==">>, s1 |-> "-", b |-> <<>>, s2 |-> "-", c |-> <<>>]
+  [id |-> "missing-argument", phase |-> "assert", a |-> <<"exit-code", "==">>, s1 |-> "-", b |-> <<>>, s2 |-> "-", c |-> <<>>],
+  \* paths with relativity options and program arguments that name files
+  [id |-> "file-rel", phase |-> "setup", a |-> <<"file", "-rel-act", "n.txt", "=", "x">>, s1 |-> "-", b |-> <<>>, s2 |-> "-", c |-> <<>>],
+  [id |-> "copy-rel", phase |-> "setup", a |-> <<"copy", "-rel-act", "f.txt", "-rel-tmp", "g.txt">>, s1 |-> "-", b |-> <<>>, s2 |-> "-", c |-> <<>>],
+  [id |-> "exists-rel", phase |-> "assert", a |-> <<"exists", "-rel-act", "f.txt", ":", "type", "file">>, s1 |-> "-", b |-> <<>>, s2 |-> "-", c |-> <<>>],
+  [id |-> "run-existing", phase |-> "setup", a |-> <<"run", "%", "true", "-existing-file", "-rel-act", "f.txt", "x">>, s1 |-> "-", b |-> <<>>, s2 |-> "-", c |-> <<>>],
+  [id |-> "contents-of-rel", phase |-> "setup", a |-> <<"file", "m.txt", "=", "-contents-of", "-rel-act", "f.txt">>, s1 |-> "-", b |-> <<>>, s2 |-> "-", c |-> <<>>],
+  [id |-> "def-path-rel", phase |-> "setup", a |-> <<"def", "path", "P2", "=", "-rel", "PTH", "q">>, s1 |-> "-", b |-> <<>>, s2 |-> "-", c |-> <<>>]
 }
+\* the lines of [act] (actor "command line"): a shell command, an executable file given with a relativity option,
+\* a program with an argument that names a file
+ActLines == {<<"$", "echo", "hello">>, <<"-rel-act", "p.sh", "a1">>,
+             <<"%", "true", "-existing-file", "-rel-act", "f.txt">>}
 SyntaxSkeletons == {"unknown-instruction", "unknown-phase", "unterminated-quote", "missing-argument"}
 
 \* tokens mutations may put in place of another
@@ -89,14 +105,17 @@ Extreme == {"0", "-1", "1//0", "1.5", "'a'", "()", "2**70", "None", "(", ")", "[
             "||", "=", ":", "{", "}", "-full", "\\u00e9", "[setup]", "[assert]", "including", "`"}
 
 VARIABLES setupL, assertL,   \* generated instruction lines (token sequences) of [setup] and [assert]
+          actL,              \* the line of [act]
           defects,           \* the defect classes used by the derivation
           extremes,          \* extreme but well-formed values used (huge integers)
           instr, muts,       \* counters
           toks,              \* the whole case as a token sequence, once assembled (mutations work on it)
           stage              \* produce / mutate / done
-vars == <<setupL, assertL, defects, extremes, instr, muts, toks, stage>>
+vars == <<setupL, assertL, actL, defects, extremes, instr, muts, toks, stage>>
 
-Init == setupL = <<>> /\ assertL = <<>> /\ defects = {} /\ extremes = {} /\ instr = 0 /\ muts = 0 /\ toks = <<>> /\ stage = "produce"
+Init == /\ setupL = <<>> /\ assertL = <<>> /\ defects = {} /\ extremes = {} /\ instr = 0 /\ muts = 0 /\ toks = <<>>
+        /\ stage = "produce"
+        /\ actL \in (IF QuoteFamily THEN ActLines ELSE {<<"$", "echo", "hello">>})
 
 Line(sk, v1, v2) == sk.a \o (IF sk.s1 = "-" THEN <<>> ELSE <<v1>>) \o sk.b \o (IF sk.s2 = "-" THEN <<>> ELSE <<v2>>)
                     \o sk.c \o <<"NL">>
@@ -110,42 +129,47 @@ ExtremeOf(sk, c1, c2) == (IF sk.s1 # "-" /\ c1 \in {"huge", "hang"} THEN {c1} EL
 
 Produce(sk, c1, v1, c2, v2) ==
   /\ stage = "produce" /\ instr < MaxInstr
+  \* (the quote family: one benign filler per slot)
+  /\ QuoteFamily => (/\ c1 = "ok" /\ c2 = "ok" /\ sk.id \notin SyntaxSkeletons
+                     /\ (sk.s1 # "-" => v1 = CHOOSE v \in Fill(sk.s1, "ok") : TRUE)
+                     /\ (sk.s2 # "-" => v2 = CHOOSE v \in Fill(sk.s2, "ok") : TRUE))
   /\ (sk.s1 = "-" /\ c1 = "ok" /\ v1 = "-") \/ (sk.s1 # "-" /\ c1 \in ClassesOf(sk.s1) /\ v1 \in Fill(sk.s1, c1))
   /\ (sk.s2 = "-" /\ c2 = "ok" /\ v2 = "-") \/ (sk.s2 # "-" /\ c2 \in ClassesOf(sk.s2) /\ v2 \in Fill(sk.s2, c2))
   /\ IF sk.phase = "setup" THEN setupL' = setupL \o Line(sk, v1, v2) /\ UNCHANGED assertL
      ELSE assertL' = assertL \o Line(sk, v1, v2) /\ UNCHANGED setupL
   /\ defects' = defects \cup DefectOf(sk, c1, c2)
   /\ extremes' = extremes \cup ExtremeOf(sk, c1, c2)
-  /\ instr' = instr + 1 /\ UNCHANGED <<muts, toks, stage>>
+  /\ instr' = instr + 1 /\ UNCHANGED <<muts, toks, stage, actL>>
 
 Frame == <<"[setup]", "NL", "file", "f.txt", "=", "'hello'", "NL",
            "def", "string", "STR", "=", "v", "NL", "def", "list", "LST", "=", "a", "b", "NL",
            "def", "path", "PTH", "=", "-rel-act", "p", "NL", "def", "text-matcher", "TM", "=", "is-empty", "NL",
            "def", "text-transformer", "TT", "=", "identity", "NL",
-           "def", "string", "IND", "=", "@[STR]@@[PTH]@", "NL", "def", "string", "IND2", "=", "1@[STR]@@[IND]@", "NL">>
+           "def", "string", "IND", "=", "@[STR]@@[PTH]@", "NL", "def", "string", "IND2", "=", "1@[STR]@@[IND]@", "NL",
+           "$", "printf 'exit 0' > p.sh; chmod +x p.sh", "NL">>
 Assemble ==
   /\ stage = "produce" /\ instr >= 1
-  /\ toks' = Frame \o setupL \o <<"[act]", "NL", "$", "echo", "hello", "NL", "[assert]", "NL">> \o assertL
-  /\ stage' = "mutate" /\ UNCHANGED <<setupL, assertL, defects, extremes, instr, muts>>
+  /\ toks' = Frame \o setupL \o <<"[act]", "NL">> \o actL \o <<"NL", "[assert]", "NL">> \o assertL
+  /\ stage' = "mutate" /\ UNCHANGED <<setupL, assertL, actL, defects, extremes, instr, muts>>
 
 CanMutate == stage = "mutate" /\ muts < MaxMut
 Positions == 1..Len(toks)
 Splice(i, repl) == SubSeq(toks, 1, i - 1) \o repl \o SubSeq(toks, i + 1, Len(toks))
 Delete(i) == CanMutate /\ i \in Positions /\ toks' = Splice(i, <<>>) /\ muts' = muts + 1
-             /\ UNCHANGED <<setupL, assertL, defects, extremes, instr, stage>>
+             /\ UNCHANGED <<setupL, assertL, actL, defects, extremes, instr, stage>>
 Duplicate(i) == CanMutate /\ i \in Positions /\ toks' = Splice(i, <<toks[i], toks[i]>>) /\ muts' = muts + 1
-                /\ UNCHANGED <<setupL, assertL, defects, extremes, instr, stage>>
+                /\ UNCHANGED <<setupL, assertL, actL, defects, extremes, instr, stage>>
 Swap(i) == CanMutate /\ i \in Positions /\ i < Len(toks) /\ toks[i] # toks[i + 1]
            /\ toks' = SubSeq(toks, 1, i - 1) \o <<toks[i + 1], toks[i]>> \o SubSeq(toks, i + 2, Len(toks))
-           /\ muts' = muts + 1 /\ UNCHANGED <<setupL, assertL, defects, extremes, instr, stage>>
+           /\ muts' = muts + 1 /\ UNCHANGED <<setupL, assertL, actL, defects, extremes, instr, stage>>
 Replace(i, x) == CanMutate /\ i \in Positions /\ x \in Extreme /\ x # toks[i] /\ toks' = Splice(i, <<x>>)
-                 /\ muts' = muts + 1 /\ UNCHANGED <<setupL, assertL, defects, extremes, instr, stage>>
+                 /\ muts' = muts + 1 /\ UNCHANGED <<setupL, assertL, actL, defects, extremes, instr, stage>>
 Truncate(i) == CanMutate /\ i \in Positions /\ i < Len(toks) /\ toks' = SubSeq(toks, 1, i) /\ muts' = muts + 1
-               /\ UNCHANGED <<setupL, assertL, defects, extremes, instr, stage>>
+               /\ UNCHANGED <<setupL, assertL, actL, defects, extremes, instr, stage>>
 Unquote(i, q) == CanMutate /\ i \in Positions /\ toks[i] # "NL" /\ q \in {"'", "\""}
                  /\ toks' = Splice(i, <<q \o toks[i]>>) /\ muts' = muts + 1
-                 /\ UNCHANGED <<setupL, assertL, defects, extremes, instr, stage>>
-Finish == stage = "mutate" /\ stage' = "done" /\ UNCHANGED <<setupL, assertL, defects, extremes, instr, muts, toks>>
+                 /\ UNCHANGED <<setupL, assertL, actL, defects, extremes, instr, stage>>
+Finish == stage = "mutate" /\ stage' = "done" /\ UNCHANGED <<setupL, assertL, actL, defects, extremes, instr, muts, toks>>
 
 ClassesOrNone(type) == IF type = "-" THEN {"ok"} ELSE ClassesOf(type)
 FillOrNone(type, class) == IF type = "-" THEN {"-"} ELSE Fill(type, class)
@@ -153,9 +177,12 @@ Next == \/ /\ stage = "produce" /\ instr < MaxInstr
            /\ \E sk \in Skeletons : \E c1 \in ClassesOrNone(sk.s1), c2 \in ClassesOrNone(sk.s2) :
                  \E v1 \in FillOrNone(sk.s1, c1), v2 \in FillOrNone(sk.s2, c2) : Produce(sk, c1, v1, c2, v2)
         \/ Assemble \/ Finish
-        \/ /\ CanMutate
+        \/ /\ CanMutate /\ ~QuoteFamily
            /\ \E i \in 1..Len(toks) : Delete(i) \/ Duplicate(i) \/ Swap(i) \/ Truncate(i)
                                       \/ (\E x \in Extreme : Replace(i, x)) \/ (\E q \in {"'", "\""} : Unquote(i, q))
+        \/ /\ CanMutate /\ QuoteFamily          \* only tokens of the generated instruction and of [act]
+           /\ \E i \in (Len(Frame) + 1)..Len(toks) : \E q \in {"'", "\""} :
+                 toks[i] \notin {"[act]", "[assert]"} /\ Unquote(i, q)
 Spec == Init /\ [][Next]_vars
 
 \* ---- classification ------------------------------------------------------------------------
